@@ -97,6 +97,15 @@ class World:
             if inst is None or v[2] not in inst.__dict__:
                 raise SkipOp("alias source does not resolve")
             return inst.__dict__[v[2]]
+        if isinstance(v, list) and v and v[0] == "inst":
+            if v[1] not in self.insts:
+                raise SkipOp("instance does not resolve")
+            return self.insts[v[1]]  # another live instance itself (not a copy)
+        if isinstance(v, list) and v and v[0] == "ret":
+            from .snap import Returner
+            # a transform returning a pre-existing object: ["ret", valref] a caller-owned one, ["ret", ["alias", i, a]]
+            # another value held by an instance
+            return Returner(self.build(v[1], with_faults))
         return build_value(v, self.classes, self.faults if with_faults else None)
 
     # -- references ---------------------------------------------------------
@@ -285,6 +294,7 @@ class OpGen:
         "p_nested_target": 0.08,
         "p_alias": 0.0,
         "any_extra": None,
+        "p_returner": 0.0,
         "weights": {"new": 2, "scalar": 6, "element": 8, "toplevel": 3, "set": 3, "del": 1.5,
                     "get": 1, "deepcopy": 1, "mutate": 0},
         "max_insts": 4,
@@ -397,8 +407,9 @@ class OpGen:
         elif which == "transform":
             m = f"transform_{name}"
             fkind = kind
-            if kind in ("list_leaf", "dict_leaf", "list_kitem", "dict_kitem", "klist", "kset"):
+            if kind in ("list_leaf", "dict_leaf", "list_kitem", "dict_kitem", "klist", "kset", "list_optleaf"):
                 fns_good = ([] if "ident" in self.excl_fns else ["ident"]) + {"list_leaf": ["rev", "empty_list"], "list_kitem": ["rev", "empty_list"],
+                                        "list_optleaf": ["rev", "empty_list"],
                                         "dict_leaf": ["empty_dict"], "dict_kitem": ["empty_dict"],
                                         "klist": ["empty_list"], "kset": ["empty_list"]}[kind]
                 fns_good = [f for f in fns_good if f not in self.excl_fns] or ["empty_list"]
@@ -412,6 +423,15 @@ class OpGen:
                     # object it was given is the aliasing case
                     fns = self.GOOD["leaf"]
                     args.append(["fn", "ident" if ("ident" in fns and s.chance(0.4)) else s.choice(fns)])
+                    if self.p["p_returner"] and s.chance(self.p["p_returner"]):
+                        # ... or one that hands back some other object that already exists: the caller's own instance,
+                        # or what another attribute of the receiver holds
+                        others = [n for n, a2 in self.w.info(self.w.role_of(inst)).items()
+                                  if a2["kind"] == "leaf" and n != name and is_spec_instance(_raw(inst, n))]
+                        if others and s.chance(0.5):
+                            args[-1] = ["ret", ["alias", iid, s.choice(others)]]
+                        else:
+                            args[-1] = ["ret", self.good("leaf")]
             else:
                 args.append(["fn", s.choice(fns_bad if bad else fns_good)])
                 if s.chance(0.05):
@@ -494,6 +514,10 @@ class OpGen:
                         kw["_index"] = an_index() if form == "index" else s.choice(list(range(-n - 1, n + 2)))
                     if form == "insert":
                         kw["_insert"] = True
+                    if kind == "klist" and s.chance(0.25):
+                        # a KeyedList position may be named by key; (inserting "at a key" is what a plain list refuses)
+                        keys = [_raw(e, "k") for e in items if isinstance(_raw(e, "k"), str)]
+                        kw["_index"] = s.choice(keys) if keys and s.chance(0.8) else "zz"
                 elif form == "kw":
                     if s.chance(0.3) and n:
                         kw["_index"] = an_index()
@@ -671,9 +695,16 @@ class OpGen:
                     kw[n] = ["fn", "zero" if j == badpos else (alt if "ident" in self.excl_fns else "ident")]
             if s.chance(0.15) and "ident" not in self.excl_fns:
                 args.append(["fn", "ident"])
+            elif self.p["p_returner"] and kw and s.chance(self.p["p_returner"]):
+                peers = [i2 for i2, o2 in self.w.insts.items() if i2 != iid and type(o2) is type(inst)]
+                if peers:
+                    args.append(["ret", ["inst", s.choice(peers)]])  # hands back another live instance of the class
         else:
             pass
         self.flags(kw, inplace)
+        if kw.get("_inplace") and args and isinstance(args[0], list) and args[0][0] == "ret":
+            # (a whole-value transform that swaps in another object has no in-place reading: the receiver cannot become it)
+            args = []
         return {"op": "call", "on": {"i": iid}, "m": which, "args": args, "kw": kw}
 
     # -- direct API writes --------------------------------------------------
@@ -734,9 +765,10 @@ class OpGen:
             k = a["kind"]
             if k == "leaf" and is_spec_instance(cur):
                 cands.append(([["a", name]], "leaf"))
-            elif k in ("list_leaf", "list_kitem", "klist"):
-                for j in range(len(_seq_items(cur))):
-                    cands.append(([["a", name], ["i", j]], ITEM_KIND[k]))
+            elif k in ("list_leaf", "list_kitem", "klist", "list_optleaf"):
+                for j, el in enumerate(_seq_items(cur)):
+                    if el is not None:
+                        cands.append(([["a", name], ["i", j]], ITEM_KIND[k]))
             elif k in ("dict_leaf", "dict_kitem", "kset"):
                 for key in _map_items(cur).keys():
                     cands.append(([["a", name], ["k", key]], ITEM_KIND[k]))
@@ -766,7 +798,7 @@ class OpGen:
                 cands.append((name, "setitem", ["tuple", ["m", 42]]))
             elif k == "set_int":
                 cands.append((name, "add", 42))
-            elif k == "list_leaf":
+            elif k in ("list_leaf", "list_optleaf"):
                 cands.append((name, "append", ["leaf", {"p": 42}]))
             elif k == "dict_leaf":
                 cands.append((name, "setitem", ["tuple", ["m", ["leaf", {"p": 42}]]]))
